@@ -55,6 +55,7 @@ type FuncContract struct {
 	Calls     map[string][]Clause // "callee#k" -> asserts
 	CallUses  map[string][]Clause // "callee#k" -> use clauses evaluated after the call
 	CallBinds map[string]string   // "callee#k" -> contract variable bound to the call's result
+	Rets      map[string][]Clause // "ret#k" -> assertions checked at that return only
 	Ghost     []GhostSet
 	Inline    bool
 	Wrap64    bool
@@ -118,6 +119,7 @@ var reFamily = regexp.MustCompile(`^family\s+(\w+)\.(\w+)\.(\w+)\s*\(([^)]*)\)\s
 var reDefault = regexp.MustCompile(`^default\s+\(\s*(\w+)\s+\*?(\w+)\s*\)\s*$`)
 var reLabel = regexp.MustCompile(`^([A-Za-z][\w.\-]*)\s*:\s*(.*)$`)
 var reLoop = regexp.MustCompile(`^loop\s+(\d+)\s*:?\s*(invariant|decreases|use|unroll|continues-only-if|deterministic-by-contract)\s*(.*)$`)
+var reRet = regexp.MustCompile(`^return\s+(\d+)\s*:?\s*assert\s+(.*)$`)
 var reCall = regexp.MustCompile(`^call\s+([\w.]+#(?:\d+|\*))\s*:?\s*(assert|use|bind)\s+(.*)$`)
 
 func parseParams(s string) []Param {
@@ -402,6 +404,19 @@ func (cs *Contracts) loadFile(repo, file string) error {
 				ls.Unroll, _ = strconv.Atoi(strings.TrimSpace(m[3]))
 				appendTo = nil
 			}
+		case "return":
+			m := reRet.FindStringSubmatch(l)
+			if m == nil {
+				return fmt.Errorf("%s: bad return clause %q", where, l)
+			}
+			if cur.Rets == nil {
+				cur.Rets = map[string][]Clause{}
+			}
+			key := "ret#" + m[1]
+			cur.Rets[key] = append(cur.Rets[key], mk(m[2]))
+			n := len(cur.Rets[key]) - 1
+			c := cur
+			appendTo = func(s string) { c.Rets[key][n].Expr += " " + s }
 		case "call":
 			m := reCall.FindStringSubmatch(l)
 			if m == nil {
